@@ -291,7 +291,9 @@ func genClosure(thorough bool) Gen {
 			{"goto-backward", func() []Stat {
 				return []Stat{Local1("gn", Num(0)), Label("again"), Assign1(Name("gn"), Bin("+", Name("gn"), Num(1))), If(Bin("<", Name("gn"), Num(3)), Goto("again")), Emit(Str("p"), Name("gn"))}
 			}},
-			{"loop-break", func() []Stat { return []Stat{NumFor("bi", Num(1), Num(3), nil, If(Bin("==", Name("bi"), Num(2)), Break())), Emit(Str("p"))} }},
+			{"loop-break", func() []Stat {
+				return []Stat{NumFor("bi", Num(1), Num(3), nil, If(Bin("==", Name("bi"), Num(2)), Break())), Emit(Str("p"))}
+			}},
 			{"loop-break-nested-capture", func() []Stat {
 				return []Stat{NumFor("bi", Num(1), Num(3), nil, Do(Local1("bz", Bin("*", Name("bi"), Num(10))), push(Func(nil, false, Assign1(Name("bz"), Bin("+", Name("bz"), Num(1))), Return(Name("bz")))), If(Bin("==", Name("bi"), Num(2)), Break()))),
 					Local(names("o1", "o2", "o3"), Str("over1"), Str("over2"), Str("over3")), Emit(Str("p"), Name("o1"))}
